@@ -357,7 +357,7 @@ theorem scalarsOf_sur_nil (u : Nat) (hs : 55296 ≤ u ∧ u < 57344) : scalarsOf
     have h2 : 56320 ≤ u ∧ u ≤ 57343 := by omega
     simp only [h1, h2, and_self, if_true, if_false]
 
-theorem utf16dec_odd : ∀ bs : BytesN, bs.length % 2 = 1 → utf16dec bs = none
+theorem utf16dec_oddlen : ∀ bs : BytesN, bs.length % 2 = 1 → utf16dec bs = none
   | [], h => by simp at h
   | [_], _ => by simp [utf16dec]
   | [_, _], h => by simp at h
@@ -372,9 +372,9 @@ theorem utf16dec_odd : ∀ bs : BytesN, bs.length % 2 = 1 → utf16dec bs = none
     have hr : r.length % 2 = 1 := by simp only [List.length_cons] at hlen; omega
     have hr2 : (h2 :: l2 :: r).length % 2 = 1 := by simp only [List.length_cons]; omega
     by_cases hs : 55296 ≤ h * 256 + l ∧ h * 256 + l < 57344
-    · rw [utf16dec_sur h l h2 l2 r hs, utf16dec_odd r hr]
+    · rw [utf16dec_sur h l h2 l2 r hs, utf16dec_oddlen r hr]
       split_ifs <;> rfl
-    · rw [utf16dec_plain h l _ hs, utf16dec_odd _ hr2]
+    · rw [utf16dec_plain h l _ hs, utf16dec_oddlen _ hr2]
       split_ifs <;> rfl
 
 theorem utf16dec_even : ∀ bs : BytesN, bs.length % 2 = 0 →
@@ -503,7 +503,7 @@ theorem specSeg_eq_decodeSeg (seg : BytesN) : specSeg seg = decodeSeg seg := by
         simp only [Option.bind_some]
         by_cases hpar : bs.length % 2 = 1
         · have : rest.length ≥ 6 := by omega
-          simp only [this, if_true, utf16dec_odd bs hpar, Option.bind_none]
+          simp only [this, if_true, utf16dec_oddlen bs hpar, Option.bind_none]
         · have hpar' : bs.length % 2 = 0 := by omega
           have : ¬ rest.length ≥ 6 := by omega
           rw [if_neg this, utf16dec_even bs hpar', empty_tests]
